@@ -7,6 +7,51 @@ from __future__ import annotations
 from . import _checks as K
 from . import _formats as F
 
+RULE = (
+    " SECOND GROUP (fmtw streams). FCIDUMP full file: 1-6 (thorough 8) orbitals, symmetric one-electron and 8-fold symmetric "
+    "two-electron arrays of random doubles (0.0, -0.0, integers, subnormal and largest doubles, 10^-30..10^30), core energy "
+    "absent/zero/value, nelec/spinpol absent, int, integral float, half-integral, and the values 9.999999999999998, "
+    "1.4999999999999998, 7.500000000000001 whose int() and int(round()) differ; every real enters the model as the exact "
+    "(Fraction) 17-digit quantisation of the double, nelec/spinpol as exact fractions. POSCAR text: 1-1001 (thorough 10001) atoms, "
+    "1-20 elements, triclinic and integer cells from 3 to 20000 bohr (cell entries wider than the 21 columns), fractional "
+    "coordinates in and outside the cell; the printed numbers are derived from the object by the writer's own float "
+    "expressions and exact rounding, the loaded doubles are compared bit for bit with the reader's float expressions applied "
+    "to the numbers the model read. FCHK objects: the generators of dump:fchk plus all six charge kinds together, the four "
+    "one_rdms keys with every level of theory (MP2, MP3, CC, CI and others), through the probed writer/reader tables. WFN "
+    "sections: synthetic section-level objects (1-999 atoms, 1-60 primitives so that every section ends ragged, 1-81 orbitals "
+    "for the 40-per-line spin list, nan energy, values filling their columns) rendered with the real FMT_* templates, and real "
+    "objects (Cartesian s/p/d shells, restricted/unrestricted, consistent and interleaved mo_spin records) through dump_one / "
+    "load_wfn_low / load_one. WFX sections: synthetic section lists (text / integer / real / orbital sections with lengths "
+    "0..41 around the per-line counts 10, 4, 3, NAN, three-digit exponents) through the real _write_xml_* helpers, parse_wfx "
+    "and np.fromstring, and real objects. QCSchema molecule: 1-100 atoms, ghost atoms and pseudo-potential core charges, "
+    "int/float charge and spin, empty/absent title, masses, 0..4 bonds (the empty list included), zero and non-zero symmetry "
+    "number, every subset of the passed-through extra keys with scalar/list/dict values, absent/dict/list provenance, unparsed "
+    "keys; compared at the level of the JSON dictionary with exact numbers. XYZ with five user columns of which three share "
+    "`atcharges` and two share `extra`. non-trivial = distinct request"
+)
+TRUSTED = [
+    "harness/vh/props/_layoutsw.py, _fchkprobe.py: ast extraction / tracer probing for lean/Iodata/Gen/LayoutsW.lean",
+    "harness/vh/props/_fcidumpw.py, _poscarw.py, _fchkw.py, _wfnw.py, _wfxw.py, _qcsw.py, _xyzcols.py: object construction, exact "
+    "(Fraction) quantisation of doubles, the independent tokenisers parse() / sections_of() of real WFN / WFX files, the "
+    "re-enactment render() of the printing tail of the WFN / WFX dump_one with the real templates and helper functions",
+    "lean/Iodata/Drv/FmtW.lean: (de)coding of the fmtw protocol",
+    "harness/vh/props/_fchkw.py skeleton(): the fields of the minimal basis-set / orbital block of FCHK objects (pass-through rows)",
+    "json.dump / json.load of the Python standard library (QCSchema is compared at the level of the parsed dictionary)",
+]
+ASSUMPTIONS = [
+    "a double printed with 17 significant digits is read back bit-identically by CPython float() (FCIDUMP; observed by the "
+    "search with np.array_equal)",
+    "POSCAR: the theorems speak about the numbers as printed; the floating-point maps rvec/angstrom, inv(cell)^T r, "
+    "float(text)*angstrom, frac.cell are applied by the harness with the same numpy expressions as the code (their exact "
+    "counterpart is proved invertible); the known last-digit drift lives in these maps only",
+    "FCHK objects: the basis-set / orbital block is carried as opaque fields (its semantics is C01's); post-SCF densities are "
+    "in the domain only with a level of theory the reader knows (MP2, MP3, CC, CI)",
+    "WFN / WFX: section layer only — which primitive belongs to which shell, normalisation and spin bookkeeping are C01's; "
+    "negative or zero indices, inf, and sections with inner blank lines are outside the reader models",
+    "QCSchema: null values and empty dictionaries (removed by _parse_json), fragments and extra['molecule'] masses / mass_numbers "
+    "are outside the domain; the order of JSON keys is not compared",
+]
+
 MODULES_W = ["_fcidumpw", "_poscarw", "_fchkw", "_wfnw", "_wfxw", "_qcsw", "_xyzcols"]
 
 
